@@ -10,7 +10,7 @@ from props import c03
 PROPERTY = 'C01'
 LEVEL = 'exploration'
 RULE = ('G1 programs (every statement/expression form and literal spelling, four layout regimes), the repository '
-        'snippets that calmjs accepts and an enumerated family of nested array literals with holes in every position, x indentation strings drawn from text(" \\t", max 8) incl. empty. Oracle: '
+        'snippets that calmjs accepts, an enumerated family of nested array literals with holes in every position and the adjacency product of C02 (slot templates x operand classes; every 12th case per quick run), x indentation strings drawn from text(" \\t", max 8) incl. empty. Oracle: '
         'o = pretty_print(parse(src), ind); (a) calmjs re-parses o to the same canonical tree; (b) the independent '
         'reference parser R1 accepts o and reads the same tree; (c) pretty_print(parse(o), ind) == o byte for byte. '
         'Sources calmjs rejects are outside the quantifier, and sources on which calmjs and the reference parser already disagree belong to C03 (both counted, not judged). non-trivial = tree with >= 4 node kinds and '
@@ -91,6 +91,8 @@ def plan(tier, seed):
     n = 3200 if tier == 'quick' else 160000
     shards = [{'name': 'g1-%d' % k, 'kind': 'g1', 'n': n // 16, 'hseed': seed * 1000 + k} for k in range(16)]
     shards.append({'name': 'corpus', 'kind': 'corpus'})
+    for k in range(32):
+        shards.append({'name': 'adj-%d' % k, 'kind': 'adj', 'k': k, 'of': 32, 'stride': 12 if tier == 'quick' else 1})
     return shards
 
 
@@ -110,7 +112,19 @@ def run_shard(shard):
         acc.case((src, indent), nt, {'source': src, 'indent': indent, 'output': info['output'] if info else None})
         acc.label('indent_%s' % ('empty' if indent == '' else 'tab' if set(indent) == {'\t'} else
                                  'space' if set(indent) == {' '} else 'mixed'))
-    if shard['kind'] == 'g1':
+    if shard['kind'] == 'adj':
+        # the adjacency product of C02 (slot templates x operand classes) through the pretty printer
+        from props import c02
+        n = 0
+        for idx, (src, meta) in enumerate(c02.product_cases()):
+            if idx % shard['of'] != shard['k']:
+                continue
+            if shard['stride'] > 1 and (idx // shard['of']) % shard['stride'] != shard['seed'] % shard['stride']:
+                continue
+            n += 1
+            one(src, '  ' if n % 2 else '\t', 'adjacency')
+        acc.extra['adjacency_enumerated'] = n
+    elif shard['kind'] == 'g1':
         strat = st.tuples(gen_program.program_strategy(), INDENTS)
         run_given(strat, lambda x: one(x[0]['text'], x[1], 'g1', x[0]['level']), shard['n'], shard['hseed'], acc)
     else:
